@@ -37,7 +37,7 @@ MIN_HITS = {
         'm:agnostic-window-shift': 150, 'agnostic:absent-domain-round': 20, 'agnostic:W=1': 3, 'agnostic:W=2': 3,
         'agnostic:W=3': 3, 'agnostic:dlr=1.0': 3,
         'm:apfl-coef': 100, 'm:apfl-keyset': 100, 'apfl:coef-at-boundary': 5, 'hit:apfl-eval-with-unseen-client': 30,
-        'm:hyp-argmin': 300, 'm:hyp-argmin-eval': 300, 'm:hyp-oracle': 150, 'm:hyp-empty': 60, 'hyp:empty-after-update': 10, 'hyp:K=1': 2,
+        'hyp:offset-loss': 15, 'ignore:value-dependent-base-optimizer': 20, 'm:hyp-argmin': 300, 'm:hyp-argmin-eval': 300, 'm:hyp-oracle': 150, 'm:hyp-empty': 60, 'hyp:empty-after-update': 10, 'hyp:K=1': 2,
         'hyp:K=4': 2, 'hyp:sopt=momentum': 2, 'hyp:sopt=adam': 2,
         'm:mime-server-bound': 100, 'm:mime-diag-bound': 200, 'm:mime-oracle': 100, 'mime:all-far-clipped-round': 60,
         'm:ignore-ignored': 100, 'm:ignore-trained': 100, 'm:ignore-oracle': 100,
@@ -79,6 +79,16 @@ def _pel(params, batch, rng):
   """Module-level per-example loss (one function object => shared jit caches)."""
   del rng
   return toy.jax_per_example_loss(params, batch)
+
+
+LOSS_OFFSET = 1000.0
+
+
+def _pel_offset(params, batch, rng):
+  """The same loss plus a large constant: gradients are unchanged, average losses are 1000.x (differences between clusters are
+  tiny RELATIVE to the values but many float32 ulps apart)."""
+  del rng
+  return toy.jax_per_example_loss(params, batch) + LOSS_OFFSET
 
 
 def mon(ctx, name, cond, key, what, wit):
@@ -384,12 +394,15 @@ def hyp_configs():
   out = []
   for k in range(18):
     a, b, c = k % 3, (k // 3) % 3, (k // 9) % 2
-    out.append((copts[(a + b) % 3], sopts[a], ['flat', 'nested'][(a + b + c) % 2]))
+    out.append((copts[(a + b) % 3], sopts[a], ['flat', 'nested'][(a + b + c) % 2], LOSS_OFFSET if k % 3 == 1 else 0.0))
   return out
 
 
 def run_hyp(ctx, fedjax, jax, jnp, cfg, h, cache):
-  cspec, sspec, kind = cfg
+  cspec, sspec, kind, offset = cfg
+  pel = _pel_offset if offset else _pel
+  if offset:
+    ctx.count('hyp:offset-loss')
   K = h['K']
   drng, raw = make_world(h, spread=1.5)
   inits = [toy.make_params(drng, DIM, kind, scale=1.2) for _ in range(K)]
@@ -417,7 +430,7 @@ def run_hyp(ctx, fedjax, jax, jnp, cfg, h, cache):
     pre_params = [toy.to_np(p) for p in state.cluster_params]
     pre_state = state
     # Harness recomputation of the average losses on the pre-round cluster params.
-    loss64 = {cid: [float(np.mean(toy.np_loss_sum(p, raw[cid]))) for p in pre_params] for cid in ids}
+    loss64 = {cid: [float(np.mean(toy.np_loss_sum(p, raw[cid]))) + offset for p in pre_params] for cid in ids}
     r = ctx.call('hyp_cluster.apply', algo.apply, state, clients, witness=rw)
     if not r.ok:
       return ctx.case_done(None, sample=wit, klass='hyp:raised')
@@ -441,11 +454,13 @@ def run_hyp(ctx, fedjax, jax, jnp, cfg, h, cache):
       lev = []
       for p in pre_state.cluster_params:
         rr = ctx.call('evaluate_average_loss', fedjax.evaluate_average_loss, p, dsets[cid].padded_batch(hp_eval),
-                      jax.random.PRNGKey(0), _pel, witness=rw)
+                      jax.random.PRNGKey(0), pel, witness=rw)
         if not rr.ok:
           return ctx.case_done(None, sample=wit, klass='hyp:raised')
         lev.append(float(np.asarray(rr.value)))
-      mon(ctx, 'hyp-argmin-eval', in_range and lev[a] <= min(lev) + tol, 'hyp/assigned-cluster-not-min-loss',
+      # the float32 average losses the algorithm itself computes: "minimal" up to a few units in the last place of these values
+      tol_ulp = 64 * 2.0**-23 * max(1.0, max(abs(v) for v in lev))
+      mon(ctx, 'hyp-argmin-eval', in_range and lev[a] <= min(lev) + tol_ulp, 'hyp/assigned-cluster-not-min-loss',
           f'round {rnd}: client {cid!r} assigned to cluster {a} with evaluate_average_loss {lev[a] if in_range else None}'
           f' > minimum {min(lev)}', {**rw, 'client': cid, 'losses': lev, 'assigned': a})
       mon(ctx, 'hyp-avgloss', all(abs(x - y) <= 1e-4 * max(1.0, abs(y)) for x, y in zip(lev, l64)),
@@ -641,6 +656,9 @@ TEMPLATES = [
     {'conv': {'w': (2, 2, 1), 'b': (1,)}, 'head': {'w': (3,), 'b': ()}},
 ]
 IG_OPTS = [('sgd', 0.1), ('momentum', 0.1, 0.9), ('adam', 0.05)]
+# base optimizers whose update depends on the parameter VALUE (decoupled weight decay): an ignored parameter handed to them with
+# a zero gradient would still move. Judged against the base optimizer on the pruned tree and by bit-identity (no NumPy oracle).
+IG_DECAY_OPTS = [('adamw', 0.05, 0.1), ('sgd+decay', 0.1, 0.05), ('adafactor-wd', 0.05, 0.01)]
 
 
 def ignore_configs(thorough):
@@ -660,7 +678,23 @@ def ignore_configs(thorough):
     for s, sub in enumerate(dict.fromkeys(subsets)):
       for o in range(3):
         out.append((t, sub, IG_OPTS[(o + s + t) % 3] if not thorough else IG_OPTS[o]))
+      out.append((t, sub, IG_DECAY_OPTS[(s + t) % 3]))
+      if thorough:
+        out.append((t, sub, IG_DECAY_OPTS[(s + t + 1) % 3]))
+        out.append((t, sub, IG_DECAY_OPTS[(s + t + 2) % 3]))
   return out
+
+
+def ignore_base_optimizer(fedjax, spec):
+  import optax
+  k = spec[0]
+  if k == 'adamw':
+    return fedjax.optimizers.create_optimizer_from_optax(optax.adamw(learning_rate=spec[1], weight_decay=spec[2]))
+  if k == 'sgd+decay':
+    return fedjax.optimizers.create_optimizer_from_optax(optax.chain(optax.add_decayed_weights(spec[2]), optax.sgd(spec[1])))
+  if k == 'adafactor-wd':
+    return fedjax.optimizers.adafactor(learning_rate=spec[1], weight_decay_rate=spec[2])
+  return toy.fedjax_optimizer(spec)
 
 
 def plain(tree):
@@ -700,9 +734,12 @@ def run_ignore(ctx, fedjax, jax, jnp, cfg, rng, cache):
   cur = jp                       # what the wrapped optimizer returned last (fed back as-is)
   bp = toy.tmap(jnp.asarray, prune(params0, ignored))
   bst = base.init(bp)
-  np_opt = toy.NpOpt(spec, np.float64)
+  decay = spec[0] in ('adamw', 'sgd+decay', 'adafactor-wd')
+  if decay:
+    ctx.count('ignore:value-dependent-base-optimizer')
+  np_opt = None if decay else toy.NpOpt(spec, np.float64)
   npp = toy.cast(prune(params0, ignored), np.float64)
-  nps = np_opt.init(npp)
+  nps = None if decay else np_opt.init(npp)
   for s in range(steps):
     g = grads_seq[s]
     sw = {k: v for k, v in wit.items() if k not in ('grads',)}
@@ -717,7 +754,8 @@ def run_ignore(ctx, fedjax, jax, jnp, cfg, rng, cache):
       ctx.violation('ignore/output-not-two-level-mapping', f'step {s}: returned params are not a two-level mapping: {e}', sw)
       return ctx.case_done(None, sample=wit, klass='ignore:raised')
     bst, bp = base.apply(toy.tmap(jnp.asarray, prune(g, ignored)), bst, bp)
-    nps, npp = np_opt.apply(prune(g, ignored), nps, npp)
+    if np_opt is not None:
+      nps, npp = np_opt.apply(prune(g, ignored), nps, npp)
     want_b = plain(bp)
     for m in sorted(tpl):
       for n in sorted(tpl[m]):
@@ -736,7 +774,8 @@ def run_ignore(ctx, fedjax, jax, jnp, cfg, rng, cache):
               'ignore/trained-param-differs-from-base-optimizer',
               f'step {s}: trained parameter {m}/{n} differs from the base optimizer applied to the pruned tree',
               {**lw, 'expected': exp})
-          mon(ctx, 'ignore-oracle', present and core.close(got[m][n], npp[m][n], rtol=2e-5, atol=2e-6),
+          if np_opt is not None:
+            mon(ctx, 'ignore-oracle', present and core.close(got[m][n], npp[m][n], rtol=2e-5, atol=2e-6),
               'ignore/trained-param-differs-from-numpy-oracle',
               f'step {s}: trained parameter {m}/{n} differs from the float64 NumPy {spec[0]} rule on the pruned tree',
               {**lw, 'expected': npp[m][n]})
@@ -836,10 +875,10 @@ def run(ctx):
   cfgs = hyp_configs()
 
   def build_hyp(cfg):
-    cspec, sspec, _ = cfg
+    cspec, sspec, _, offset = cfg
     hp_train = fedjax.ShuffleRepeatBatchHParams(batch_size=BATCH, num_epochs=1 if cspec[0] == 'adam' else 2, seed=23)
     hp_eval = fedjax.PaddedBatchHParams(batch_size=BATCH)
-    return (hyp_cluster.hyp_cluster(_pel, toy.fedjax_optimizer(cspec), toy.fedjax_optimizer(sspec), hp_eval, hp_train),
+    return (hyp_cluster.hyp_cluster(_pel_offset if offset else _pel, toy.fedjax_optimizer(cspec), toy.fedjax_optimizer(sspec), hp_eval, hp_train),
             hp_train, hp_eval)
 
   cache = AlgoCache(build_hyp, keep=1)
@@ -872,8 +911,8 @@ def run(ctx):
 
   def build_ignore(cfg):
     _, ignored, spec = cfg
-    base = toy.fedjax_optimizer(spec)
-    return fedjax.optimizers.ignore_grads_haiku(toy.fedjax_optimizer(spec), [tuple(x) for x in ignored]), base
+    base = ignore_base_optimizer(fedjax, spec)
+    return fedjax.optimizers.ignore_grads_haiku(ignore_base_optimizer(fedjax, spec), [tuple(x) for x in ignored]), base
 
   cache = AlgoCache(build_ignore, keep=1)
   for cid, rng in ctx.cases('ignore', ns * reps * blocks):
